@@ -6,6 +6,7 @@ package gabi
 
 import (
 	"slices"
+	"sync"
 
 	"github.com/go-errors/errors"
 	"github.com/privacybydesign/gabi/big"
@@ -22,7 +23,21 @@ type Credential struct {
 	Attributes           []*big.Int          `json:"attributes"`
 	NonRevocationWitness *revocation.Witness `json:"nonrevWitness,omitempty"`
 
-	nonrevCache chan *NonRevocationProofBuilder
+	nonrevCache     chan *NonRevocationProofBuilder
+	nonrevCacheOnce sync.Once
+}
+
+// nonrevCacheChan returns the cache channel, creating it on first use. The credential may be
+// shared between goroutines that prepare the cache and goroutines that consume it, so the lazy
+// creation must not race with the reads of the field.
+func (ic *Credential) nonrevCacheChan() chan *NonRevocationProofBuilder {
+	ic.nonrevCacheOnce.Do(func() {
+		if ic.nonrevCache == nil {
+			common.VerifPoint("nonrev.prepare.beforeMake")
+			ic.nonrevCache = make(chan *NonRevocationProofBuilder, 1)
+		}
+	})
+	return ic.nonrevCache
 }
 
 // DisclosureProofBuilder is an object that holds the state for the protocol to
@@ -197,7 +212,7 @@ func (ic *Credential) nonrevConsumeBuilder() (*NonRevocationProofBuilder, error)
 	// lest we totally break security: reusing randomizers in a second session makes it possible
 	// for the verifier to compute our revocation witness e from the proofs
 	select {
-	case b := <-ic.nonrevCache:
+	case b := <-ic.nonrevCacheChan():
 		common.VerifPoint("nonrev.consume.afterReceive")
 		return b, b.UpdateCommit(ic.NonRevocationWitness)
 	default:
@@ -212,14 +227,11 @@ func (ic *Credential) NonrevPrepareCache() error {
 	if ic.NonRevocationWitness == nil {
 		return nil
 	}
-	if ic.nonrevCache == nil {
-		common.VerifPoint("nonrev.prepare.beforeMake")
-		ic.nonrevCache = make(chan *NonRevocationProofBuilder, 1)
-	}
+	cache := ic.nonrevCacheChan()
 	var b *NonRevocationProofBuilder
 	var err error
 	select {
-	case b = <-ic.nonrevCache:
+	case b = <-cache:
 		Logger.Trace("updating existing nonrevocation commitment")
 		err = b.UpdateCommit(ic.NonRevocationWitness)
 	default:
@@ -234,7 +246,7 @@ func (ic *Credential) NonrevPrepareCache() error {
 	// put it back in the channel, waiting to be consumed by nonrevConsumeBuilder()
 	// if the channel has already been populated by another goroutine in the meantime we just discard
 	select {
-	case ic.nonrevCache <- b:
+	case cache <- b:
 	default:
 	}
 
